@@ -46,8 +46,14 @@ def run(tier, replay=None):
     rep.cov["distinct_nontrivial"] = sums[0]["states"]
     rep.cov["exhaustive"] = True
     rep.add_samples(sums[0]["samples"], 2)
+    rep.extra["states_holding_a_respelled_certificate"] = sum(s.get("spelled_states", 0) for s in sums)
+    if replay is None and rep.extra["states_holding_a_respelled_certificate"] == 0:
+        raise vlib.ToolError("vacuous: no replayed state holds a certificate in another spelling than the standard one")
 
     cc.trace_leg(rep, PID, tier, wd, bins, "c05")
+    sc = (rep.extra.get("trace_leg") or {}).get("spelled_certificate_commands", {})
+    if "drive_config" in bins and sc.get("ReplaceCertificate:readable", [0, 0])[0] == 0:
+        raise vlib.ToolError("vacuous: the random leg stored no certificate in another spelling through ReplaceCertificate")
 
     rep.cov["rule"] = ("every distinct state of ConfigState.tla per object family within (MaxObj, MaxDepth) = %s, reached on a real "
                        "ConfigState through a TLC-recorded command path (valid, invalid, duplicate, removal, patch commands), "
